@@ -179,6 +179,36 @@ func (x *Exec) doCall(res ssa.Value, call *ssa.CallCommon, p token.Pos) {
 	x.unknownCall("funcvalue:"+call.Value.Name()+":"+tn, call.Signature().Results(), setRes, false)
 }
 
+// checkCallSites generates the caller's own call-site conditions for a call of `name`
+// (ordering of effects: "by the time this call is made, ... already holds"); they apply to
+// the function under contract and to its own closures, whether the callee is under
+// contract, inlined or unknown.
+func (x *Exec) checkCallSites(name string, args []Val, tys []types.Type, p token.Pos) {
+	rc := x.root().c
+	if rc == nil || x.fn == nil || x.discovering || !x.ownCode() {
+		return
+	}
+	for _, cs := range rc.CallSites {
+		if !strings.Contains(name, cs.Callee) {
+			continue
+		}
+		cenv := x.specEnvAt(x.cur, nil)
+		for i, a := range args {
+			var t types.Type
+			if i < len(tys) {
+				t = tys[i]
+			}
+			cenv.vars[fmt.Sprintf("arg%d", i)] = SpecVal{V: a, Go: t}
+		}
+		t, err := x.evalSpec(cs.E, cenv)
+		if err != nil {
+			x.specError(cs, err)
+			continue
+		}
+		x.oblige("callsite", fmt.Sprintf("callsite:%s:%d", cs.Name, x.callN[name]), x.reach, t, cs.Src, p)
+	}
+}
+
 // runTransaction executes the callback of a View/Update/BulkWrite-like call in place.
 // With `option onerror=rollback` the store keeps the callback's writes only when the
 // callback returns no error: a transaction whose function fails is aborted (bolt, badger
@@ -317,6 +347,19 @@ func (x *Exec) callFunction(f *ssa.Function, binds []Val, args []Val, call *ssa.
 		}
 		setRes(x.applyContract(c, x.V.funcKey(f), args, names, tys, sig.Results(), p))
 		return
+	}
+	if rc := x.root().c; rc != nil && len(rc.CallSites) > 0 {
+		// call-site conditions also guard calls of functions that are not under contract
+		name := x.V.funcKey(f)
+		var tys []types.Type
+		if sig.Recv() != nil {
+			tys = append(tys, sig.Recv().Type())
+		}
+		for i := 0; i < sig.Params().Len(); i++ {
+			tys = append(tys, sig.Params().At(i).Type())
+		}
+		x.callN[name]++
+		x.checkCallSites(name, args, tys, p)
 	}
 	if r, ok := x.builtinSpec(f, args, call, p); ok {
 		setRes(r)
@@ -509,30 +552,7 @@ func (x *Exec) applyContract(c *Contract, name string, args []Val, names []strin
 		env.lets = append(append([]NamedExpr{}, c.Lets...), x.outerEnv.lets...)
 	}
 	x.callN[name]++
-	if rc := x.root().c; rc != nil && x.fn != nil && !x.discovering && x.ownCode() {
-		// the caller's own call-site conditions (ordering of effects: "by the time this
-		// call is made, ... already holds"); they apply to the function under contract
-		// and to its own closures
-		for _, cs := range rc.CallSites {
-			if !strings.Contains(name, cs.Callee) {
-				continue
-			}
-			cenv := x.specEnvAt(x.cur, nil)
-			for i, a := range args {
-				var t types.Type
-				if i < len(tys) {
-					t = tys[i]
-				}
-				cenv.vars[fmt.Sprintf("arg%d", i)] = SpecVal{V: a, Go: t}
-			}
-			t, err := x.evalSpec(cs.E, cenv)
-			if err != nil {
-				x.specError(cs, err)
-				continue
-			}
-			x.oblige("callsite", fmt.Sprintf("callsite:%s:%d", cs.Name, x.callN[name]), x.reach, t, cs.Src, p)
-		}
-	}
+	x.checkCallSites(name, args, tys, p)
 	for _, r := range c.Requires {
 		t, err := x.evalSpec(r.E, env)
 		if err != nil {
